@@ -207,7 +207,23 @@ def _widen_visibility(text, log, where):
     new, n = re.subn(r"\bpub\s*\((crate|self|super)\)", "pub", text)
     if n:
         log.append({"rule": "X9", "site": where, "pattern": "pub(crate|self|super)", "replacement": "pub", "count": n})
-    return new
+    # private items / methods of inherent impls become `pub` too (single-file unit: no effect on meaning)
+    lines = new.split("\n")
+    in_trait_impl = bool(re.match(r"\s*impl\b[^{]*\bfor\b", new))
+    k = 0
+    for i, ln in enumerate(lines):
+        m = re.match(r"^(\s*)(enum|struct|type|fn)\s+\w+", ln)
+        if m and not in_trait_impl:
+            # do not touch nested fns inside bodies: only depth 0 (items) or depth 1 inside an impl block
+            prefix = "\n".join(lines[:i])
+            depth = rsitems.mask(prefix).count("{") - rsitems.mask(prefix).count("}")
+            is_impl = bool(re.match(r"\s*impl\b", new))
+            if depth == (1 if is_impl else 0):
+                lines[i] = m.group(1) + "pub " + ln[len(m.group(1)):]
+                k += 1
+    if k:
+        log.append({"rule": "X9", "site": where, "pattern": "private item", "replacement": "pub", "count": k})
+    return "\n".join(lines)
 
 
 def build_unit(snapshot, unit):
